@@ -136,6 +136,7 @@ def parseVal (spec : String) : Option (Val Nat) :=
   | "L" => arg.toNat?.map fun n => .seq (List.range n)
   | "D" => arg.toNat?.map fun n => .seq (List.range n)
   | "CS" => arg.toNat?.map fun n => .seq (List.range n)
+  | "A" => arg.toNat?.map fun n => .seq (List.range n)
   | "P" => arg.toNat?.map fun n => .tuple (List.range n)
   | "E" => arg.toNat?.map fun n => .iter true (List.range n)
   | "R" => arg.toNat?.map fun n => .iter true (List.range n)
